@@ -275,10 +275,13 @@ Definition ht_remove (h : ht) (k : K) : outcome (ht * option ht_entry) :=
     end
   end.
 
-(* ares_htable_all_buckets: None = NULL.  The output array has num_keys slots; the default
-   allocator of the library answers NULL for a request of 0 bytes. *)
+(* ares_htable_all_buckets: None = NULL.  An empty table yields NULL without asking the
+   allocator (fixes/C19-htable-all-buckets-empty.patch; the pinned code asked for 0 bytes,
+   and the typed keys() wrappers leaked the result when the allocator answered non-NULL).
+   The output array has num_keys slots; [alloc_ok] is the allocator's answer. *)
 Definition ht_all_buckets (alloc_ok : bool) (h : ht) : outcome (option (list ht_entry)) :=
-  if Nat.eqb (ht_num_keys h) 0 || negb alloc_ok then Ok None
+  if Nat.eqb (ht_num_keys h) 0 then Ok None
+  else if negb alloc_ok then Ok None
   else
     do arr <- ht_array (ht_size h) (ht_buckets h);
     let out := ht_entries_of arr in
